@@ -347,7 +347,7 @@ Proof.
   assert (Hrest : alt rest).
   { apply (alt_app_r (line ++ mid)). rewrite <- app_assoc, <- Ecs. exact Halt. }
   split; [|split; [exact Hrest|]].
-  { rewrite Ecs, !app_length. destruct line, mid; cbn [List.length] in *; try lia. congruence. }
+  { rewrite Ecs, !app_length. destruct line, mid; cbn [List.length app] in *; try lia. congruence. }
   destruct Hmid as [->|(b & -> & Hb)].
   - (* no blank dropped: the next chunk, if any, is blank *)
     cbn [app] in Ecs. destruct (Hlast eq_refl) as (r & c & El & Hc).
